@@ -37,11 +37,16 @@ mpf_get_d (mpf_srcptr src)
      mpf_mul_2exp by 2^63 bits gives 2^57 limbs), so the bit count must not
      be formed blindly: far out of the double range either way is enough for
      mpn_get_d to answer infinity or zero */
-  if (EXP (src) - abs_size > LONG_MAX / GMP_NUMB_BITS)
-    exp = LONG_MAX;
-  else if (EXP (src) - abs_size < -(LONG_MAX / GMP_NUMB_BITS))
-    exp = -LONG_MAX;
-  else
-    exp = (EXP (src) - abs_size) * GMP_NUMB_BITS;
+  {
+    /* compare before subtracting: EXP - abs_size itself wraps for exponents
+       within abs_size of the most negative mp_exp_t */
+    mp_exp_t lim = LONG_MAX / GMP_NUMB_BITS - abs_size;
+    if (EXP (src) > lim)
+      exp = LONG_MAX;
+    else if (EXP (src) < -lim)
+      exp = -LONG_MAX;
+    else
+      exp = (EXP (src) - abs_size) * GMP_NUMB_BITS;
+  }
   return mpn_get_d (PTR (src), abs_size, size, exp);
 }
